@@ -15,7 +15,7 @@ func init() {
 		id: "C03",
 		li: levelInfo{
 			Level:       "other",
-			Explanation: "Static necessary conditions of single-server equivalence on a stable cluster. R1 (routing-key agreement): at every call of MakeRequest(key, req) the key is Array[p].Text of the body of the very request that is passed, with p the key position of that handler kind (1 for simple, sum-result and split children, 3 for EVAL); every name routed by a generic handler has first-key position 1 in the Redis <= 5.0 reference. R2: split/assemble agreement (shared with C01.R3). R3 (who-may-write): the only functions that write into an existing RESP value (its fields, its array elements or the bytes of its text) are the compression filter and the SCAN cursor rewrite - nothing else can alter relayed bytes. R4 (routing-table fill): CLUSTER NODES fields are read at positions 0 / 1 / 3 / 8+, only master lines receive slots, replicas are removed from the returned map, slot ranges are expanded inclusively, a refresh rewrites every listed slot with the parsed instance under the range guard and nothing else writes the table. R5: no alias of the read buffer escapes (shared with C10.R2). R6 (owner first): the key->slot function equals the Redis Cluster specification - the C12 obligations (CRC table and step by GF(2)-affine interpretation, fold order, hash-tag decision tree over the four orderings, routing index crc16(hashtag(key))&16383) are re-evaluated here. R7 (pipeline order): a request stays on the goroutine that read it until it is enqueued on a backend queue - no go statement carries a request into code that can enqueue it. Reply equivalence for all programs is value-level and is not decided. R8 (shared with C11.R4): the decoder nesting counter is balanced on every path, so no sequence of replies makes a later one fail. R9 (shared with C10.R9): no RESP text is replaced by a copy made with an idiom that turns empty into nil or nil into empty (append(empty, t...), []byte(string(t)), make+copy) unless under a test of the source. R10 (shared with C04.R1): only error replies are classified as redirections. R11 (shared with C13.R12): the decompression hook is registered only with a compression section. R4 also forbids substring tests on columns of a CLUSTER NODES line. R4 also: the parser rejects a whole view only for a short line, an address without host:port shape, or an error of a callee.",
+			Explanation: "Static necessary conditions of single-server equivalence on a stable cluster. R1 (routing-key agreement): at every call of MakeRequest(key, req) the key is Array[p].Text of the body of the very request that is passed, with p the key position of that handler kind (1 for simple, sum-result and split children, 3 for EVAL); every name routed by a generic handler has first-key position 1 in the Redis <= 5.0 reference. R2: split/assemble agreement (shared with C01.R3). R3 (who-may-write): the only functions that write into an existing RESP value (its fields, its array elements or the bytes of its text) are the compression filter and the SCAN cursor rewrite - nothing else can alter relayed bytes. R4 (routing-table fill): CLUSTER NODES fields are read at positions 0 / 1 / 3 / 8+, only master lines receive slots, replicas are removed from the returned map, slot ranges are expanded inclusively, a refresh rewrites every listed slot with the parsed instance under the range guard and nothing else writes the table. R5: no alias of the read buffer escapes (shared with C10.R2). R6 (owner first): the key->slot function equals the Redis Cluster specification - the C12 obligations (CRC table and step by GF(2)-affine interpretation, fold order, hash-tag decision tree over the four orderings, routing index crc16(hashtag(key))&16383) are re-evaluated here. R7 (pipeline order): a request stays on the goroutine that read it until it is enqueued on a backend queue - no go statement carries a request into code that can enqueue it. Reply equivalence for all programs is value-level and is not decided. R8 (shared with C11.R4): the decoder nesting counter is balanced on every path, so no sequence of replies makes a later one fail. R9 (shared with C10.R9): no RESP text is replaced by a copy made with an idiom that turns empty into nil or nil into empty (append(empty, t...), []byte(string(t)), make+copy) unless under a test of the source. R10 (shared with C04.R1): only error replies are classified as redirections. R11 (shared with C13.R12): the decompression hook is registered only with a compression section. R4 also forbids substring tests on columns of a CLUSTER NODES line. R4 also: the parser rejects a whole view only for a short line, an address without host:port shape, or an error of a callee. R4 also: every non-empty line of CLUSTER NODES yields a node (no skip that depends on a column).",
 			Assumptions: []string{"Redis <= 5.0 command table and CLUSTER NODES line format embedded as references"},
 			TrustedBase: []string{"go/ssa", "VTA call graph", "embedded references"},
 		},
@@ -673,6 +673,64 @@ func checkClusterNodesParser(c *Ctx, rule string) {
 		}
 	}
 	c.Check(okIncl, rule, "slot range expansion", sl.Pos(), "for i := start; i <= end; i++", "the slot range loop was not found")
+	// every line that has the mandatory fields yields a node: the only line that is skipped is the empty one. A skip
+	// that depends on a column - the link-state, say, which describes the bus link of the node that answered, not
+	// whether clients can reach the node - drops the new owner from the view after a failover: the refresh succeeds,
+	// nothing retries, and the slots keep pointing at the dead master.
+	if host == ffn || ffn == fn {
+		var fieldsCall ssa.Instruction
+		if fc, ok := fields.(ssa.Instruction); ok && fc.Parent() == host {
+			fieldsCall = fc
+		}
+		var nodeStore ssa.Instruction
+		eachInstr(host, func(_ *ssa.BasicBlock, _ int, in ssa.Instruction) {
+			if mu, ok := in.(*ssa.MapUpdate); ok {
+				if m, isMap := mu.Map.Type().Underlying().(*types.Map); isMap {
+					if pt, isPtr := m.Elem().(*types.Pointer); isPtr && modType(pt.Elem(), redisPkg, "instance") && nodeStore == nil {
+						nodeStore = in
+					}
+				}
+			}
+		})
+		if fieldsCall != nil && nodeStore != nil && instrDominates(fieldsCall, nodeStore) {
+			isEmptyEdge := func(b *ssa.BasicBlock, k int) bool {
+				iff, ok := b.Instrs[len(b.Instrs)-1].(*ssa.If)
+				if !ok {
+					return false
+				}
+				bo, ok := iff.Cond.(*ssa.BinOp)
+				if !ok {
+					return false
+				}
+				lc, ok := bo.X.(*ssa.Call)
+				if !ok || !isBuiltin(lc, "len") || lc.Call.Args[0] != fields {
+					return false
+				}
+				z, isC := constInt(bo.Y)
+				if !isC || z != 0 {
+					return false
+				}
+				return (bo.Op == token.EQL && k == 0) || (bo.Op == token.NEQ && k == 1)
+			}
+			skip := findPath(posOf(fieldsCall), pathQuery{target: func(x ssa.Instruction) bool {
+				_, isNext := x.(*ssa.Next)
+				if isNext {
+					return true
+				}
+				// the loop header of an index loop: reaching the split call again
+				return false
+			}, avoid: func(x ssa.Instruction) bool { return x == nodeStore || isReturn(x) }, edge: func(b *ssa.BasicBlock, k int) bool {
+				return !isEmptyEdge(b, k)
+			}})
+			// a range over a slice has no Next instruction: look for a path back to the split itself
+			if skip == nil {
+				skip = findPath(posOf(fieldsCall), pathQuery{target: func(x ssa.Instruction) bool { return x == fieldsCall }, avoid: func(x ssa.Instruction) bool { return x == nodeStore || isReturn(x) }, edge: func(b *ssa.BasicBlock, k int) bool {
+					return !isEmptyEdge(b, k)
+				}})
+			}
+			c.Check(skip == nil, rule, "every non-empty line yields a node", fieldsCall.Pos(), "the only line skipped is the empty one", "a line with all mandatory fields can be skipped without an error ("+p.pathString(skip)+"): a node left out because of a column - its link-state as seen by the node that answered, a flag - is missing from the view; after a failover that is the new owner, the refresh succeeds, nothing retries, and its slots keep pointing at the dead master although it is reachable")
+		}
+	}
 	// which lines make the parser give up on the whole view: a line with fewer than the mandatory fields, an address that
 	// does not split into host and port, and whatever the slot parser rejects. Every other rejection is a line Redis
 	// can print in a healthy cluster - a node whose address was lost is listed as ":0@0 ... noaddr" until somebody runs
